@@ -28,7 +28,7 @@ def run(ctx):
     samples = []
 
     # ------------------------------------------------------------------ model + S->C
-    alpha, maxlen = ("t", 4) if thorough else ("q", 3)
+    alpha, maxlen = ("t", 4) if thorough else ("q", 4)
     cfg = mc.write_cfg(ctx, "MC_Markup_run.cfg", MaxLen=maxlen, Alpha='"%s"' % alpha, EmitBeh="TRUE")
     r = ctx.tlc("MC_Markup", cfg="MC_Markup_run.cfg", files=[("MC_Markup_run.cfg", cfg)], workers=8, timeout=1500,
                 label="MC_Markup (A = B, text, ranges; alphabet %s, <= %d items)" % (alpha, maxlen))
